@@ -105,7 +105,7 @@ end
 section
 variable {Lx Ly Lz : Nat}
 
-theorem spec_L3 (hx : 3 ≤ Lx) (hy : 4 ≤ Ly) (hz : 5 ≤ Lz) :
+theorem spec_L3 (hx : 3 ≤ Lx) (hy : 4 ≤ Ly) (hz : 4 ≤ Lz) :
     Spec (L3 Lx Ly Lz) (fun a x y z => a = 3 ∧ P3 Lx Ly Lz x y z) := by
   unfold L3
   have h := (spec_bx 3 4 (Lx - 3) 4 (Ly - 4) 4 (Lz - 4) tt).append
@@ -123,7 +123,7 @@ theorem spec_L3 (hx : 3 ≤ Lx) (hy : 4 ≤ Ly) (hz : 5 ≤ Lz) :
   simp only [chk_iff, tt_iff, and_true]
   exact or5_and
 
-theorem spec_L2 (hx : 3 ≤ Lx) (hy : 4 ≤ Ly) (hz : 5 ≤ Lz) :
+theorem spec_L2 (hx : 3 ≤ Lx) (hy : 4 ≤ Ly) (hz : 4 ≤ Lz) :
     Spec (L2 Lx Ly Lz) (fun a x y z => a = 2 ∧ P2 Lx Ly Lz x y z) := by
   unfold L2
   have h := (spec_bx 2 4 (Lx - 3) 4 (Ly - 4) 4 (Lz - 4) tt).append
@@ -141,7 +141,7 @@ theorem spec_L2 (hx : 3 ≤ Lx) (hy : 4 ≤ Ly) (hz : 5 ≤ Lz) :
   simp only [chk_iff, tt_iff, and_true]
   exact or5_and
 
-theorem spec_L1 (hx : 3 ≤ Lx) (hy : 4 ≤ Ly) (hz : 5 ≤ Lz) :
+theorem spec_L1 (hx : 3 ≤ Lx) (hy : 4 ≤ Ly) (hz : 4 ≤ Lz) :
     Spec (L1 Lx Ly Lz) (fun a x y z => a = 1 ∧ P1 Lx Ly Lz x y z) := by
   unfold L1
   have h := (spec_bx 1 2 (Lx - 1) (2 * Ly - 2) 1 0 Lz tt).append
@@ -159,7 +159,7 @@ theorem spec_L1 (hx : 3 ≤ Lx) (hy : 4 ≤ Ly) (hz : 5 ≤ Lz) :
   simp only [chk_iff, tt_iff, and_true]
   exact or5_and
 
-theorem spec_L0 (hx : 3 ≤ Lx) (hy : 4 ≤ Ly) (hz : 5 ≤ Lz) :
+theorem spec_L0 (hx : 3 ≤ Lx) (hy : 4 ≤ Ly) (hz : 4 ≤ Lz) :
     Spec (L0 Lx Ly Lz) (fun a x y z => a = 0 ∧ P0 Lx Ly Lz x y z) := by
   unfold L0
   have h := (spec_bx 0 4 (Lx - 3) 4 (Ly - 4) 4 (Lz - 4) (chk 2)).append
@@ -203,18 +203,18 @@ theorem selTriangles_partition (hx : 3 ≤ Lx) (hy : 4 ≤ Ly) (hz : 5 ≤ Lz) :
     (bx 3 2 (Lx - 1) 0 (Ly - 1) 0 Lz tt).length + ((bx 2 2 (Lx - 1) 2 (Ly - 1) 0 Lz tt).length +
       ((L1 Lx Ly Lz).length + (LB0 Lx Ly Lz).length)) := by
   have hA := (spec_selTriangles Lx Ly Lz).append
-    ((spec_L3 hx hy hz).append ((spec_L2 hx hy hz).append (spec_L0 hx hy hz)
+    ((spec_L3 hx hy (Nat.le_of_succ_le hz)).append ((spec_L2 hx hy (Nat.le_of_succ_le hz)).append (spec_L0 hx hy (Nat.le_of_succ_le hz))
       (by intro a x y z h1 h2; omega))
       (by intro a x y z h1 h2; omega))
     (by
       intro a x y z h1 h2
       rcases h2 with ⟨rfl, h2⟩ | ⟨rfl, h2⟩ | ⟨rfl, h2⟩
-      · exact ax3_disj hx hy hz x y z h1 h2
-      · exact ax2_disj hx hy hz x y z h1 h2
-      · exact ax0_disj hx hy hz x y z h1 h2)
+      · exact ax3_disj hx hy (Nat.le_of_succ_le hz) x y z h1 h2
+      · exact ax2_disj hx hy (Nat.le_of_succ_le hz) x y z h1 h2
+      · exact ax0_disj hx hy (Nat.le_of_succ_le hz) x y z h1 h2)
   have hB := (spec_bx 3 2 (Lx - 1) 0 (Ly - 1) 0 Lz tt).append
     ((spec_bx 2 2 (Lx - 1) 2 (Ly - 1) 0 Lz tt).append
-      ((spec_L1 hx hy hz).append (spec_LB0 hx hy hz) (by intro a x y z h1 h2; omega))
+      ((spec_L1 hx hy (Nat.le_of_succ_le hz)).append (spec_LB0 hx hy hz) (by intro a x y z h1 h2; omega))
       (by intro a x y z h1 h2; omega))
     (by intro a x y z h1 h2; omega)
   have h := hA.length_eq hB (by
@@ -226,20 +226,20 @@ theorem selTriangles_partition (hx : 3 ≤ Lx) (hy : 4 ≤ Ly) (hz : 5 ≤ Lz) :
         have h4 : a = 0 ∨ a = 1 ∨ a = 2 ∨ a = 3 := by omega
         rcases h4 with rfl | rfl | rfl | rfl
         · exact Or.inr (Or.inr (Or.inr ⟨rfl, (ax0 hx hy hz x y z).mp (Or.inl h)⟩))
-        · exact Or.inr (Or.inr (Or.inl ⟨rfl, (ax1 hx hy hz x y z).mp h⟩))
-        · exact Or.inr (Or.inl ⟨rfl, (ax2 hx hy hz x y z).mp (Or.inl h)⟩)
-        · exact Or.inl ⟨rfl, (ax3 hx hy hz x y z).mp (Or.inl h)⟩
-      · exact Or.inl ⟨rfl, (ax3 hx hy hz x y z).mp (Or.inr h)⟩
-      · exact Or.inr (Or.inl ⟨rfl, (ax2 hx hy hz x y z).mp (Or.inr h)⟩)
+        · exact Or.inr (Or.inr (Or.inl ⟨rfl, (ax1 hx hy (Nat.le_of_succ_le hz) x y z).mp h⟩))
+        · exact Or.inr (Or.inl ⟨rfl, (ax2 hx hy (Nat.le_of_succ_le hz) x y z).mp (Or.inl h)⟩)
+        · exact Or.inl ⟨rfl, (ax3 hx hy (Nat.le_of_succ_le hz) x y z).mp (Or.inl h)⟩
+      · exact Or.inl ⟨rfl, (ax3 hx hy (Nat.le_of_succ_le hz) x y z).mp (Or.inr h)⟩
+      · exact Or.inr (Or.inl ⟨rfl, (ax2 hx hy (Nat.le_of_succ_le hz) x y z).mp (Or.inr h)⟩)
       · exact Or.inr (Or.inr (Or.inr ⟨rfl, (ax0 hx hy hz x y z).mp (Or.inr h)⟩))
     · rintro (⟨rfl, h⟩ | ⟨rfl, h⟩ | ⟨rfl, h⟩ | ⟨rfl, h⟩)
-      · rcases (ax3 hx hy hz x y z).mpr h with h | h
+      · rcases (ax3 hx hy (Nat.le_of_succ_le hz) x y z).mpr h with h | h
         · exact Or.inl h
         · exact Or.inr (Or.inl ⟨rfl, h⟩)
-      · rcases (ax2 hx hy hz x y z).mpr h with h | h
+      · rcases (ax2 hx hy (Nat.le_of_succ_le hz) x y z).mpr h with h | h
         · exact Or.inl h
         · exact Or.inr (Or.inr (Or.inl ⟨rfl, h⟩))
-      · exact Or.inl ((ax1 hx hy hz x y z).mpr h)
+      · exact Or.inl ((ax1 hx hy (Nat.le_of_succ_le hz) x y z).mpr h)
       · rcases (ax0 hx hy hz x y z).mpr h with h | h
         · exact Or.inl h
         · exact Or.inr (Or.inr (Or.inr ⟨rfl, h⟩)))
